@@ -213,6 +213,38 @@ def c09(res, ctx):
         # real-time interruptions
         cases.append('\t'.join(['position fen ' + p, 'go infinite', '@sleep %d' % rng.choice([0, 1, 5, 20]), 'stop', '@fen', 'go depth 1', '@fen'])); meta.append((p, fresh_score))
         cases.append('\t'.join(['position fen ' + p, 'go movetime %d' % rng.choice([1, 2, 5, 10]), '@fen', 'go depth 1', '@fen'])); meta.append((p, fresh_score))
+    # time-limited searches are deterministic up to WHERE they are cut: whatever depth the last reported iteration has,
+    # its score and the announced move must be those of a fresh `go depth d` (an iteration that was cut must not be reported)
+    big = [p for p in V.gen_positions('games', res.seed + 1234, 40 if q else 600) if sum(1 for ch in p.split(' ')[0] if ch.isalpha()) >= 14]
+    bleg = legal_sets(big)
+    tcases = []
+    for p in big:
+        if not bleg.get(p): continue
+        f = p.split(' '); f[4] = str(min(int(f[4]), 20)); p = ' '.join(f)
+        tcases.append((p, 'go movetime %d' % rng.choice([250, 500, 900])))
+    tobs = V.run_impl('session', ['\t'.join(['position fen ' + p, g]) for p, g in tcases])
+    res.count('session-timed', ['\t'.join(['position fen ' + p, g]) for p, g in tcases])
+    follow, fmeta = [], []
+    for (p, g), o in zip(tcases, tobs):
+        ss, _ = searches(split_session(o))
+        if not ss: continue
+        infos, bm = ss[-1]
+        scored = [parse_info(i) for i in infos if ' score ' in i and ' depth ' in i]
+        if not scored: continue
+        last = scored[-1]
+        d = int(last['depth'][0])
+        if d < 1 or d > 7: continue
+        follow.append('\t'.join(['position fen ' + p, 'go depth %d' % d])); fmeta.append((p, g, d, last['score'], bm.split(' ')[1], o))
+    fobs = V.run_impl('session', follow)
+    kk = 0
+    for c, o, (p, g, d, score, best, orig) in zip(follow, fobs, fmeta):
+        ss, _ = searches(split_session(o))
+        if not ss or not ss[-1][0]: continue
+        ref = [parse_info(i) for i in ss[-1][0] if ' score ' in i][-1]
+        rbest = ss[-1][1].split(' ')[1]
+        if ref['score'] != score or rbest != best:
+            if kk < MAXREP: res.violation('session', 'position fen %s\t%s' % (p, g), 'depth %d: score %s bestmove %s (fresh go depth %d)' % (d, ' '.join(ref['score']), rbest, d), 'score %s bestmove %s ;; %s' % (' '.join(score), best, orig[-300:]), 'property', 'a time-limited search reported / played the result of an iteration that was cut short')
+            kk += 1
     obs = V.run_impl('session', cases)
     res.count('session', cases)
     k = 0
@@ -306,6 +338,58 @@ def c08(res, ctx):
         f = p.split(' '); f[4] = str(min(int(f[4]), 20)); p = ' '.join(f)
         cases.append('\t'.join(['position fen ' + p, 'go depth %d' % d])); meta.append((p, d, None))
     res.families['near-terminal'] = len(nt)
+    # forced mates in 3 need depth 5, where positions transpose between plies and the transposition table matters:
+    # hunt them among few-piece endgames with the reference evaluator, then ask the engine (release build for speed)
+    hunt = V.gen_positions('endgames', res.seed + 700, 4000 if q else 80000)
+    hunt = [h for h in hunt if int(h.split(' ')[4]) <= 40]
+    r5 = V.run_impl('refsearch', ['%s\t5' % h for h in hunt], release=True)
+    mate3 = [(h, r) for h, r in zip(hunt, r5) if ' | mate 3 | ' in r or ' | mate 2 | ' in r]
+    rng.shuffle(mate3)
+    mate3 = mate3[: (250 if q else 6000)]
+    m_obs = V.run_impl('session', ['\t'.join(['position fen ' + h, 'go depth 5']) for h, _ in mate3], release=True)
+    res.count('search-mates-d5', ['\t'.join(['position fen ' + h, 'go depth 5']) for h, _ in mate3])
+    km = 0
+    for (h, r), o in zip(mate3, m_obs):
+        ss, _ = searches(split_session(o))
+        if not ss or not ss[-1][0]: continue
+        fin = [i for i in ss[-1][0] if ' score ' in i]
+        if not fin: continue
+        got = ' '.join(parse_info(fin[-1])['score'])
+        val, score, best, _n = [x.strip() for x in r.split(' | ')]
+        bmove = ss[-1][1].split(' ')[1]
+        if got != score or bmove not in set(best.split(',')):
+            if km < MAXREP: res.violation('search-value', '\t'.join(['position fen ' + h, 'go depth 5']), r, fin[-1] + ' ;; ' + ss[-1][1], 'reference minimax', 'a forced %s is not reported / not played at depth 5 (got "%s", bestmove %s)' % (score, got, bmove))
+            km += 1
+    res.families['mate-in-2-or-3 positions at depth 5'] = len(mate3)
+    # depth 4-5 on few-piece positions with captures available: the transposition table is exercised; the engine must
+    # still equal the Coq search model exactly (tie level: values above depth 3 are not claimed to be plain minimax)
+    import gen_session
+    deep = [h for h in hunt if sum(1 for ch in h.split(' ')[0] if ch.isalpha()) == 4][: (24 if q else 400)]
+    dcases = ['\t'.join(['position fen ' + h, 'go depth 4']) for h in deep]
+    di = V.run_impl('session', dcases)
+    dm = V.run_model('session', dcases)
+    res.count('session-model-depth4', dcases)
+    for c, i, m in zip(dcases, di, dm):
+        if gen_session.normalise(i) != m:
+            res.tie_break('session', c, m[-500:], gen_session.normalise(i)[-500:])
+    if not q:
+        # rich positions: forced mates in 3 found by the reference at depth 5 (expensive; thorough tier only)
+        rich = V.gen_positions('special', res.seed + 800, 6000) + V.gen_positions('games', res.seed + 801, 3000)
+        rich = [h for h in rich if int(h.split(' ')[4]) <= 40 and 5 <= sum(1 for ch in h.split(' ')[0] if ch.isalpha()) <= 14]
+        rr = V.run_impl('refsearch', ['%s\t5' % h for h in rich], release=True)
+        rm = [(h, r) for h, r in zip(rich, rr) if ' | mate 3 | ' in r]
+        ro = V.run_impl('session', ['\t'.join(['position fen ' + h, 'go depth 5']) for h, _ in rm], release=True)
+        res.count('search-mates-d5-rich', ['\t'.join(['position fen ' + h, 'go depth 5']) for h, _ in rm])
+        for (h, r), o in zip(rm, ro):
+            ss, _ = searches(split_session(o))
+            if not ss or not ss[-1][0]: continue
+            fin = [i for i in ss[-1][0] if ' score ' in i]
+            if not fin: continue
+            got = ' '.join(parse_info(fin[-1])['score'])
+            if got != 'mate 3':
+                if km < MAXREP: res.violation('search-value', '\t'.join(['position fen ' + h, 'go depth 5']), r, fin[-1], 'reference minimax', 'a forced mate in 3 is not reported at depth 5 (got "%s")' % got)
+                km += 1
+        res.families['rich mate-in-3 positions'] = len(rm)
     mleg = legal_sets([f for f, _ in MATES] + [flip_fen(f) for f, _ in MATES])
     for fen, _ in MATES:
         if mleg.get(fen) and mleg.get(flip_fen(fen)):
